@@ -448,10 +448,12 @@ class ConcurrentExecutor(ABC, Generic[CallableType, ResultType]):
             run_in_child_handler,
             child_context.state,
             operation_identifier=operation_identifier,
+            # The summary generator summarises the BatchResult of the whole map/parallel
+            # operation; it must not be applied to the result of a single item (an oversized
+            # item result is recorded with an empty summary and rebuilt on replay).
             config=ChildConfig(
                 serdes=self.item_serdes or self.serdes,
                 sub_type=self.sub_type_iteration,
-                summary_generator=self.summary_generator,
             ),
         )
         child_context.state.track_replay(operation_id=operation_id)
